@@ -24,7 +24,7 @@ DISTINCT_MEASURE = 'distinct (system, config class, per-round fault-kind sets) h
 PROBES = ('domain_without_examples', 'window_fully_rolled_over', 'empty_cluster_round', 'all_clients_one_cluster',
           'clip_triggered', 'clip_not_triggered', 'coefficient_hit_bound_0_or_1', 'returning_client', 'restart_between_rounds',
           'domain_absent_from_whole_window', 'frozen_leaf_nonzero_grad', 'whole_cohort_dropout')
-OPTIONAL_PROBES = ('excluded_diverged_training_round',)
+OPTIONAL_PROBES = ('excluded_diverged_training_round', 'apfl_eval_between_rounds', 'apfl_eval_of_client_that_never_trained')
 ASSUMPTIONS = [
     'ignore_grads_haiku is given haiku immutable-dict params (its documented input); with a plain dict it returns another container type and FedAvg rejects the mismatch - a container-type matter outside the stated property',
     'finite inputs; domain learning rate x loss stays far below float32 exp overflow (lr <= 1, losses < 10)',
@@ -81,8 +81,46 @@ def generate(seed, tier):
     sc['ops'].append({'cohort': cohort, 'key_seed': o.randint(0, 2**30),
                       'dropout': [c for c in cohort if o.chance(0.15)], 'all_drop': o.chance(0.07),
                       'blackout': [dd for dd in range(nd) if o.chance(0.3)] if system == 'agnostic' else [],
-                      'restart': o.chance(0.15)})
+                      'restart': o.chance(0.15),
+                      # APFL: personalised evaluation between rounds, on clients that may never have trained
+                      'eval': (o.sample(range(n_clients), o.randint(1, n_clients)) if (system == 'apfl' and o.chance(0.4)) else [])})
   return sc
+
+
+_EVAL_FN = {}
+
+
+def _apfl_eval_fn(spec):
+  """Real eval_adaptive_personalized_federated_learning for the spec's model (cached per model kind)."""
+  import fedjax
+  import jax.numpy as jnp
+  from fedjax.algorithms import apfl
+  from fedjax.core import metrics as fmetrics
+  from vsim import fedsim
+  key = (spec['model'], spec['pad_bs'])
+  if key not in _EVAL_FN:
+    kind = spec['model']
+
+    class SqErr(fmetrics.Metric):
+      def zero(self):
+        return fmetrics.MeanStat.new(0., 0.)
+
+      def evaluate_example(self, example, prediction):
+        return fmetrics.MeanStat.new((prediction - example['y'])**2, 1.)
+
+    if kind == 'lin':
+      def apply_eval(params, batch):
+        return batch['x'] @ params['w'] + params['b']
+      eval_metrics = {'sqerr': SqErr()}
+    else:
+      def apply_eval(params, batch):
+        return batch['x'] @ params['W'] + params['c']
+      eval_metrics = {'accuracy': fmetrics.Accuracy(target_key='yc')}
+    model = fedjax.Model(init=lambda rng: None, apply_for_train=lambda p, b, r: apply_eval(p, b),
+                         apply_for_eval=apply_eval, train_loss=lambda b, p: p, eval_metrics=eval_metrics)
+    _EVAL_FN[key] = apfl.eval_adaptive_personalized_federated_learning(
+        model, fedjax.PaddedBatchHParams(batch_size=spec['pad_bs']))
+  return _EVAL_FN[key]
 
 
 def _round_clients(pop, ids, op, nd, recording):
@@ -170,6 +208,23 @@ def execute(sc):
       kinds.add('all-empty')
     if any(s == 0 for s in sizes):
       faults.inc('client_dropout')
+    if system == 'apfl' and op.get('eval'):
+      probes.inc('apfl_eval_between_rounds')
+      ev_ids = [ids[i] for i in op['eval'] if i < len(ids)]
+      if any(c not in participated for c in ev_ids):
+        probes.inc('apfl_eval_of_client_that_never_trained')
+        nontrivial = True
+      snap = fedsim.snapshot(state)
+      try:
+        import fedjax
+        res_ = list(_apfl_eval_fn(spec)(state, [(c, fedjax.ClientDataset(dict(pop[c]))) for c in ev_ids]))
+        if sorted(r[0] for r in res_) != sorted(ev_ids):
+          violation('eval', 'I:apfl-eval-does-not-return-one-result-per-client', f'{label}: {[r[0] for r in res_]} vs {ev_ids}')
+      except Exception as e:
+        violation('eval', f'I:apfl-eval-raises:{type(e).__name__}', f'{label}: {str(e)[:200]}')
+      d = fedsim.snapshot_diff(state, snap)
+      if d:
+        violation('table', 'I:apfl-evaluation-changes-the-server-state', f'{label}: evaluating {ev_ids}: {d}')
     prev = state
     try:
       state, diag = alg.apply(state, [(c[0], c[1], c[2]) for c in clients])
@@ -407,7 +462,7 @@ def _out(trace, viols, probes, faults, hist, evals, sc, nontrivial, extra=None):
   sample = {'system': sc['system'], 'backend': sc['backend'],
             'spec': {k: v for k, v in spec.items() if k in ('name', 'model', 'copt', 'sopt', 'hp', 'num_domains', 'window',
                                                               'domain_lr', 'clusters', 'clip', 'coef', 'server_lr', 'base')},
-            'rounds': [{k: o[k] for k in ('cohort', 'dropout', 'all_drop', 'blackout', 'restart')} for o in sc['ops']]}
+            'rounds': [{k: o.get(k) for k in ('cohort', 'dropout', 'all_drop', 'blackout', 'restart', 'eval')} for o in sc['ops']]}
   return {'digest': trace.digest(), 'evaluations': max(evals, 1), 'violations': viols, 'probes': dict(probes),
           'faults': dict(faults), 'distinct': [hkey], 'nontrivial': [hkey] if nontrivial else [], 'sim_rounds': evals,
           'sim_seconds': 0.0, 'sample': sample, 'extra_counts': extra or {}}
@@ -421,8 +476,8 @@ def _simplify(sc):
     if sp.get(k) != v and not (sc['system'] == 'apfl' and k == 'copt'):
       yield dict(sc, spec=dict(sp, **{k: v}))
   for i, op in enumerate(sc['ops']):
-    for fld, empty in (('dropout', []), ('blackout', []), ('all_drop', False), ('restart', False)):
-      if op[fld]:
+    for fld, empty in (('dropout', []), ('blackout', []), ('all_drop', False), ('restart', False), ('eval', [])):
+      if op.get(fld):
         yield dict(sc, ops=sc['ops'][:i] + [dict(op, **{fld: empty})] + sc['ops'][i + 1:])
     for j in range(len(op['cohort'])):
       if len(op['cohort']) > 1:
